@@ -136,7 +136,7 @@ type c17cfg struct {
 func (s *mstate) enabled(cfg c17cfg) []sop {
 	var ops []sop
 	last := len(s.parts) - 1
-	if !s.finalized {
+	if !s.finalized && !s.removed {
 		if len(s.parts) < cfg.maxParts {
 			ops = append(ops, sop{K: "newpart"})
 		}
@@ -198,7 +198,8 @@ func (s *mstate) enabled(cfg c17cfg) []sop {
 		ops = append(ops, sop{K: "drain", A: i, B: 2, Z: true})
 		ops = append(ops, sop{K: "close", A: i})
 	}
-	if s.finalized && !s.removed {
+	// Remove: of a finalized file, and of one that is still being written (what Muxer.Close does to the open segment)
+	if !s.removed {
 		ops = append(ops, sop{K: "remove"})
 	}
 	return ops
@@ -274,6 +275,7 @@ type impl struct {
 	// prevWriter: the writer of the part before the last one (kept across NewPart)
 	prevWriter io.WriteSeeker
 	readers    []io.ReadCloser
+	removed    bool
 	path       string
 }
 
@@ -283,7 +285,7 @@ func (im *impl) cleanup(finalized bool) {
 	}
 	func() {
 		defer func() { recover() }()
-		if !finalized {
+		if !finalized && !im.removed {
 			im.file.Finalize()
 		}
 		im.file.Remove()
@@ -432,6 +434,7 @@ func (im *impl) step(o sop, want []byte) (err error) {
 		im.readers = append(im.readers[:o.A:o.A], im.readers[o.A+1:]...)
 	case "remove":
 		im.file.Remove()
+		im.removed = true
 	}
 	return nil
 }
@@ -466,6 +469,13 @@ func (im *impl) observe(m *mstate) (err error) {
 		if im.path != "" {
 			if _, err := os.Stat(im.path); err == nil {
 				return fmt.Errorf("disk file still exists after Remove")
+			}
+			// ... under whatever name: nothing that belongs to this file is left in the directory
+			ents, _ := os.ReadDir(filepath.Dir(im.path))
+			for _, e := range ents {
+				if strings.HasPrefix(e.Name(), filepath.Base(im.path)) {
+					return fmt.Errorf("disk file %s is left in the directory after Remove", e.Name())
+				}
 			}
 		}
 		return nil
